@@ -35,6 +35,13 @@ def cases(draw, tier):
     # `../`, so one target is reached under several spellings
     use_sub = draw(st.integers(0, 99)) < 45
     targets = [("sub/" if use_sub and draw(st.integers(0, 99)) < 45 else "") + "t%d" % i for i in range(nt)]
+    # some of the targets in sub/ are built by a default.<ext>.do in the ROOT directory: their scripts run with a
+    # working directory that is not the target's directory (names in their log records are relative to the former)
+    by_default = {}
+    for i, t in enumerate(targets):
+        if t.startswith("sub/") and draw(st.integers(0, 99)) < 40:
+            targets[i] = "%s.e%d" % (t, i)
+            by_default[targets[i]] = "default.e%d.do" % i
     dofiles = {}
     errfiles = {}
     expect = {}
@@ -108,27 +115,42 @@ def cases(draw, tier):
         if dep_at >= len(pieces) and deps:
             body.append(["dep", 1, deps])
         body.append(["out", "stdout"])
-        dofiles[t + ".do"] = {"v": 1, "body": body}
+        dofiles[by_default.get(t, t + ".do")] = {"v": 1, "body": body}
         expect[t] = lines
     top = targets[-1]
     # make sure the top depends on something so that nesting exists
     proj = {"dirs": ["", "sub"], "sources": [], "dofiles": dofiles, "targets": targets, "watch": [],
-            "errfiles": errfiles}
+            "errfiles": errfiles, "rule_of": by_default}
     cfg = {"log": 1, "keep_going": 0, "jobs": draw(st.sampled_from([1, 1, 2, 3, 4])),
            # in dependency order (a target only depends on lower-numbered ones): `redo X Y` with Y in X's closure
            # would legitimately build Y twice (statement-silent shape, DESIGN §5)
            "roots": sorted(set([top] + [targets[draw(st.integers(0, nt - 1))] for _ in range(draw(st.integers(0, 2)))]),
-                           key=lambda t_: int(t_.rsplit("t", 1)[1]))}
+                           key=tidx)}
     # the live output in the default (pretty) format; a second command that rebuilds some of the targets with other
     # lines (the per-target log is replaced at each build start), replayed with and without --unchanged
     cfg["pretty"] = int(not has_record_line and draw(st.integers(0, 99)) < 30)
     cfg["roots2"] = None
     if not has_record_line and draw(st.integers(0, 99)) < 50:
         pick = [t for t in targets if draw(st.integers(0, 99)) < 40] or [top]
-        cfg["roots2"] = sorted(set(pick), key=lambda t_: int(t_.rsplit("t", 1)[1]))
+        cfg["roots2"] = sorted(set(pick), key=tidx)
         cfg["jobs2"] = draw(st.sampled_from([1, 2, 3]))
     return {"project": proj, "cfg": cfg, "ops": [], "expect": expect, "d16_excluded": d16_moved,
             "record_like_line": has_record_line}
+
+
+def tidx(t):
+    return int(re.search(r"t(\d+)", posixpath.basename(t)).group(1))
+
+
+def target_of(case, dof):
+    for t, d in (case["project"].get("rule_of") or {}).items():
+        if d == dof:
+            return t
+    return dof[:-3]
+
+
+def dofile_of(case, t):
+    return (case["project"].get("rule_of") or {}).get(t, t + ".do")
 
 
 PRETTY = re.compile(r"^redo +(\S+?)(?: \((resumed|done|exit -?\d+)\))?$")
@@ -153,7 +175,7 @@ def second_generation(case):
             new[n] = full2[prev_new:cut]
             prev_new = cut
         assert prev_new == len(full2), (prev_new, len(full2))
-        exp2[dof[:-3]] = [pl + tag for pl in case["expect"][dof[:-3]]]
+        exp2[target_of(case, dof)] = [pl + tag for pl in case["expect"][target_of(case, dof)]]
     return new, exp2
 
 
@@ -184,7 +206,7 @@ def parse_log(text, pretty=False):
                         problems.append("resumed %r which was never opened" % name)
                     cur = name
                 continue
-        if mm and re.match(r"L (?:sub/)?t\d+ \d+( |$)", mm.group(4)):
+        if mm and re.match(r"L (?:sub/)?t\d+(?:\.e\d+)? \d+( |$)", mm.group(4)):
             raw = mm.group(4)      # a script's own line that has the form of a record: judged like any other line
             mm = None
         if mm:
@@ -255,7 +277,7 @@ def closure(case, roots):
         if t in seen:
             continue
         seen.add(t)
-        spec = case["project"]["dofiles"].get(t + ".do")
+        spec = case["project"]["dofiles"].get(dofile_of(case, t))
         for stt in (spec or {}).get("body", []):
             if stt[0] == "dep":
                 todo.extend(stt[2])      # (root-relative in the DSL)
@@ -266,7 +288,7 @@ def partial_across_dep(case, executed):
     """True iff some executed script calls redo-ifchange while one of its stderr lines is still unterminated."""
     ef = case["project"]["errfiles"]
     for dof, spec in case["project"]["dofiles"].items():
-        if dof[:-3] not in executed:
+        if target_of(case, dof) not in executed:
             continue
         pending = False
         for stt in spec["body"]:
@@ -284,7 +306,7 @@ def max_pieces_per_line(case, executed):
     ef = case["project"]["errfiles"]
     best = 0
     for dof, spec in case["project"]["dofiles"].items():
-        if dof[:-3] not in executed:
+        if target_of(case, dof) not in executed:
             continue
         cur = 0
         for stt in spec["body"]:
@@ -364,6 +386,12 @@ def run_case(case, tier):
             out.events["c18:excluded-by-construction(D16 shape moved to a line boundary)"] += 1
         if case.get("record_like_line"):
             out.events["c18:whole-line-has-the-form-of-a-record"] += 1
+        if any(t in (case["project"].get("rule_of") or {}) for t in ex):
+            out.events["c18:script-cwd-differs-from-target-directory(default rule in the parent)"] += 1
+            if "@@REDO:waiting:" in text or any(
+                    b"@@REDO:waiting:" in open(os.path.join(disk.root, ".redo", n), "rb").read()
+                    for n in os.listdir(os.path.join(disk.root, ".redo")) if n.startswith("log.")):
+                out.events["c18:lock-wait-recorded-by-a-script-whose-cwd-is-not-its-target-directory(maybe)"] += 1
         if any("/" in t for t in ex) and any("/" not in t for t in ex):
             out.events["c18:targets-in-two-directories"] += 1
         pad = partial_across_dep(case, set(ex))
